@@ -22,9 +22,14 @@ import (
 	"context"
 	"encoding/json"
 	"fmt"
+	"net"
 	"sort"
+	"sync/atomic"
 	"testing"
 	"time"
+
+	pb "go.etcd.io/etcd/api/v3/etcdserverpb"
+	"google.golang.org/grpc"
 
 	"github.com/twmb/franz-go/pkg/kmsg"
 	clientv3 "go.etcd.io/etcd/client/v3"
@@ -50,6 +55,46 @@ var errC21Inconclusive = fmt.Errorf("vf c21: inconclusive")
 type c21Env struct {
 	endpoints []string
 	admin     *clientv3.Client
+	// gating gRPC front for the operator's own etcd client (PublishMetadataSnapshot dials the
+	// endpoints it is given): Range and Txn park while armed, so that broker operations can be
+	// scheduled between the operator's read and its write.
+	proxyEndpoints []string
+	gate           *c21GateKV
+}
+
+type c21GateKV struct {
+	pb.UnimplementedKVServer
+	inner   pb.KVClient
+	armed   atomic.Bool
+	arrived chan string
+	release chan struct{}
+}
+
+func (g *c21GateKV) park(what string) {
+	if !g.armed.Load() {
+		return
+	}
+	g.arrived <- what
+	<-g.release
+}
+
+func (g *c21GateKV) Range(ctx context.Context, r *pb.RangeRequest) (*pb.RangeResponse, error) {
+	g.park("range")
+	return g.inner.Range(ctx, r)
+}
+func (g *c21GateKV) Txn(ctx context.Context, r *pb.TxnRequest) (*pb.TxnResponse, error) {
+	g.park("txn")
+	return g.inner.Txn(ctx, r)
+}
+func (g *c21GateKV) Put(ctx context.Context, r *pb.PutRequest) (*pb.PutResponse, error) {
+	g.park("put")
+	return g.inner.Put(ctx, r)
+}
+func (g *c21GateKV) DeleteRange(ctx context.Context, r *pb.DeleteRangeRequest) (*pb.DeleteRangeResponse, error) {
+	return g.inner.DeleteRange(ctx, r)
+}
+func (g *c21GateKV) Compact(ctx context.Context, r *pb.CompactionRequest) (*pb.CompactionResponse, error) {
+	return g.inner.Compact(ctx, r)
 }
 
 func c21NewEnv(t *testing.T) *c21Env {
@@ -66,7 +111,19 @@ func c21NewEnv(t *testing.T) *c21Env {
 		fmt.Println("VF-INCONCLUSIVE: embedded etcd does not answer:", err)
 		t.Fatalf("etcd ping: %v", err)
 	}
-	return &c21Env{endpoints: endpoints, admin: cli}
+	e := &c21Env{endpoints: endpoints, admin: cli}
+	ln, err := net.Listen("tcp", "127.0.0.1:0")
+	if err != nil {
+		fmt.Println("VF-INCONCLUSIVE: cannot listen for the gating etcd front:", err)
+		t.Fatalf("listen: %v", err)
+	}
+	e.gate = &c21GateKV{inner: pb.NewKVClient(cli.ActiveConnection()), arrived: make(chan string, 16), release: make(chan struct{})}
+	srv := grpc.NewServer()
+	pb.RegisterKVServer(srv, e.gate)
+	go func() { _ = srv.Serve(ln) }()
+	t.Cleanup(srv.Stop)
+	e.proxyEndpoints = []string{"http://" + ln.Addr().String()}
+	return e
 }
 
 // same shape as cmd/broker metadataForBroker: the broker itself and the default topic
@@ -98,6 +155,7 @@ type c21World struct {
 	crossBroker     bool
 	excludedStale   bool
 	excludedShrink  bool
+	splitPublish    bool // broker operations ran between the operator's read and its write
 }
 
 func (e *c21Env) newWorld(nb int) (*c21World, error) {
@@ -290,7 +348,10 @@ type c21CR struct {
 	Partitions int
 }
 
-func (w *c21World) publish(replicas int, crs []c21CR, knownShrink bool) error {
+// publish runs one operator publish. With between != nil the operator's etcd client goes
+// through the gating front: its read is let through, then - before its write transaction is
+// sent - between() runs (broker operations), then the write and any retries proceed.
+func (w *c21World) publish(replicas int, crs []c21CR, knownShrink bool, between func() error) error {
 	r := int32(replicas)
 	cluster := &kafscalev1alpha1.KafscaleCluster{
 		ObjectMeta: metav1.ObjectMeta{Name: "kc", Namespace: "ns", UID: "uid-1"},
@@ -316,7 +377,53 @@ func (w *c21World) publish(replicas int, crs []c21CR, knownShrink bool) error {
 	}
 	ctx, cancel := context.WithTimeout(context.Background(), 60*time.Second)
 	defer cancel()
-	err := operator.PublishMetadataSnapshot(ctx, w.env.endpoints, operator.BuildClusterMetadata(cluster, topics))
+	var err error
+	if between == nil {
+		err = operator.PublishMetadataSnapshot(ctx, w.env.endpoints, operator.BuildClusterMetadata(cluster, topics))
+	} else {
+		g := w.env.gate
+		done := make(chan error, 1)
+		g.armed.Store(true)
+		go func() {
+			done <- operator.PublishMetadataSnapshot(ctx, w.env.proxyEndpoints, operator.BuildClusterMetadata(cluster, topics))
+		}()
+		finished := false
+		// whatever happens below (a failing oracle inside between panics through rapid), the
+		// operator goroutine is let run to its end
+		defer func() {
+			g.armed.Store(false)
+			for !finished {
+				select {
+				case err = <-done:
+					finished = true
+				case <-g.arrived:
+					g.release <- struct{}{}
+				}
+			}
+		}()
+		w.trace = append(w.trace, fmt.Sprintf("publish-begins(%v)", shown))
+		var berr error
+		ranBetween := false
+		deadline := time.After(60 * time.Second)
+		for !finished {
+			select {
+			case err = <-done:
+				finished = true
+			case what := <-g.arrived:
+				if what == "txn" && !ranBetween {
+					ranBetween = true
+					w.splitPublish = true
+					berr = between()
+				}
+				g.release <- struct{}{}
+			case <-deadline:
+				return fmt.Errorf("%w: operator publish did not finish", errC21Inconclusive)
+			}
+		}
+		if berr != nil {
+			return berr
+		}
+	}
 	w.trace = append(w.trace, fmt.Sprintf("publish(%v)=%v", shown, err))
 	if err != nil {
 		return fmt.Errorf("%w: PublishMetadataSnapshot: %v", errC21Inconclusive, err)
@@ -372,8 +479,8 @@ func TestVF_C21_Histories(t *testing.T) {
 		fail("", err)
 		defer w.close()
 		nops := rapid.IntRange(3, 12).Draw(rt, "nops")
-		for i := 0; i < nops; i++ {
-			op := rapid.SampledFrom([]string{"create", "create", "create", "grow", "grow", "grow", "delete", "refresh", "refresh", "refresh", "publish", "publish"}).Draw(rt, "op")
+		var doOp func(op string)
+		doOp = func(op string) {
 			b := rapid.IntRange(0, nb-1).Draw(rt, "broker")
 			switch op {
 			case "create":
@@ -417,9 +524,27 @@ func TestVF_C21_Histories(t *testing.T) {
 					used[name] = true
 					crs = append(crs, c21CR{Name: name, Partitions: rapid.IntRange(1, 4).Draw(rt, "crPartitions")})
 				}
-				fail("", w.publish(rapid.IntRange(1, 3).Draw(rt, "replicas"), crs, knownShrink))
+				replicas := rapid.IntRange(1, 3).Draw(rt, "replicas")
+				// about 1 publish in 3 is split: 1-2 broker operations are scheduled between the
+				// operator's read of the snapshot and its write (a conflict costs the operator a
+				// 200 ms real sleep before it retries, hence the rationing)
+				var between func() error
+				if rapid.IntRange(0, 2).Draw(rt, "splitPublish") == 1 {
+					nin := rapid.IntRange(1, 2).Draw(rt, "between")
+					between = func() error {
+						for j := 0; j < nin; j++ {
+							doOp(rapid.SampledFrom([]string{"create", "create", "grow", "grow", "refresh"}).Draw(rt, "betweenOp"))
+							fail(w.checkEtcd(w.trace[len(w.trace)-1]))
+						}
+						return nil
+					}
+				}
+				fail("", w.publish(replicas, crs, knownShrink, between))
 				st.Class("op-publish")
 			}
+		}
+		for i := 0; i < nops; i++ {
+			doOp(rapid.SampledFrom([]string{"create", "create", "create", "grow", "grow", "grow", "delete", "refresh", "refresh", "refresh", "publish", "publish"}).Draw(rt, "op"))
 			fail(w.checkEtcd(w.trace[len(w.trace)-1]))
 		}
 		fail(w.finalCheck())
@@ -441,6 +566,10 @@ func TestVF_C21_Histories(t *testing.T) {
 		}
 		if w.crossBroker {
 			st.Class("mutation-of-a-topic-acknowledged-by-another-broker")
+			nt = true
+		}
+		if w.splitPublish {
+			st.Class("broker-operation-between-operator-read-and-write")
 			nt = true
 		}
 		if nt {
@@ -486,7 +615,7 @@ func TestVF_C21_Witness(t *testing.T) {
 		return w.create(1, "b", 1, false)
 	})
 	run(c21FindingShrink, "operator publish renders the topic resource's partition count over a broker-acknowledged growth", func(w *c21World) error {
-		if err := w.publish(1, []c21CR{{"a", 2}}, false); err != nil {
+		if err := w.publish(1, []c21CR{{"a", 2}}, false, nil); err != nil {
 			return err
 		}
 		if err := w.refresh(0); err != nil {
@@ -495,6 +624,6 @@ func TestVF_C21_Witness(t *testing.T) {
 		if err := w.grow(0, "a", 4, false); err != nil {
 			return err
 		}
-		return w.publish(1, []c21CR{{"a", 2}}, false)
+		return w.publish(1, []c21CR{{"a", 2}}, false, nil)
 	})
 }
